@@ -375,6 +375,11 @@ func c13ScenarioYAML(grpc bool, e map[string]string) string {
 		b.WriteString("calls: [ ]\nrequests:\n")
 		b.WriteString("  - name: auth_req\n    method: POST\n    uri: /auth\n    tag: auth\n    body: '{\"user_id\": {{.request.auth_req.preprocessor.user_id}}}'\n    preprocessor:\n      mapping:\n        user_id: " + get("mapping", "source.users[next].user_id") + "\n")
 		b.WriteString("    postprocessors:\n      - type: " + get("post_type", "var/jsonpath") + "\n        mapping:\n          token: $.auth_key\n")
+		if xp := get("extra_post", ""); xp != "" {
+			// one more postprocessor on the auth step: "<type>|<variable>|<expression>"
+			f := strings.SplitN(xp, "|", 3)
+			b.WriteString("      - type: " + f[0] + "\n        mapping:\n          " + f[1] + ": '" + f[2] + "'\n")
+		}
 		b.WriteString("    templater:\n      type: " + get("templater", "text") + "\n")
 		b.WriteString("  - name: list_req\n    method: GET\n    uri: /list\n    tag: list\n")
 	}
@@ -458,6 +463,12 @@ var c13ScDefects = []scDefect{
 	{"mapping-bad-index", map[string]string{"mapping": "source.users[abc].user_id"}, nil, false},
 	{"mapping-unclosed-index", map[string]string{"mapping": "source.users[next.user_id"}, nil, false},
 	{"mapping-empty", map[string]string{"mapping": "\"\""}, nil, false},
+	// XPath expressions that are valid but do not select nodes (http/scenario in YAML only)
+	{"xpath-returns-a-number", map[string]string{"extra_post": "var/xpath|cnt|count(//a)"}, nil, false},
+	{"xpath-returns-a-string", map[string]string{"extra_post": "var/xpath|cnt|string(//title)"}, nil, false},
+	{"xpath-returns-a-boolean", map[string]string{"extra_post": "var/xpath|cnt|boolean(//a)"}, nil, false},
+	{"xpath-invalid", map[string]string{"extra_post": "var/xpath|cnt|//a["}, nil, false},
+	{"xpath-selects-nothing", map[string]string{"extra_post": "var/xpath|cnt|//nosuch/@href"}, nil, false},
 	// the documented randomisation functions with hostile arguments (a mapping is evaluated at every shot)
 	{"mapping-randint-equal-bounds", map[string]string{"mapping": "randInt(5, 5)"}, nil, false},
 	{"mapping-randint-extreme-bounds", map[string]string{"mapping": "randInt(-9223372036854775808, 9223372036854775807)"}, nil, false},
